@@ -271,16 +271,22 @@ def asValidFraction (x : α) : α := if x < 0 then 0 else if 1 < x then 1 else x
 /-- Where the two liquid compositions of `LLE.__call__` come from. -/
 inductive LlePath (α : Type) where
   | solve (molL : List α)          -- `solve_lle_liquid_mol` (pseudo-equilibrium / shgo / differential evolution)
-  | cache (phi : α) (K : List α)   -- cached partition coefficients and `phase_fraction(z, K, phi)`
+  | cache (phi : α) (K : List α)   -- cached partition coefficients and the value `phase_fraction(z, K, phi)` returned
+  | cacheRaw (raw : α) (K : List α) -- the same with the RAW Rachford–Rice root: `phase_fraction` ends in `as_valid_fraction`
+
+/-- the remembered-coefficients branch: `phi >= 1` puts everything in `l`, otherwise `y = z*K/(phi*K + 1 - phi)`,
+`mol_l = y*phi`, `mol_L = mol - mol_l` -/
+def lleSplitCache (z : Nat → α) (phi : α) (K : List α) : (Nat → α) × (Nat → α) :=
+  if phi < 1 then
+    let ml := fun i => z i * get K i / (phi * get K i + (1 - phi)) * phi
+    (ml, fun i => z i - ml i)
+  else (z, fun i => 0 * z i)
 
 /-- `(mol_l, mol_L)` on the normalised composition `z`, before the top-chemical swap -/
 def lleSplit (z : Nat → α) : LlePath α → (Nat → α) × (Nat → α)
   | .solve molL => (fun i => z i - get molL i, get molL)
-  | .cache phi K =>
-    if phi < 1 then
-      let ml := fun i => z i * get K i / (phi * get K i + (1 - phi)) * phi
-      (ml, fun i => z i - ml i)
-    else (z, fun i => 0 * z i)
+  | .cache phi K => lleSplitCache z phi K
+  | .cacheRaw raw K => lleSplitCache z (asValidFraction raw) K
 
 /-- the top-chemical rule: swap the phases when the favoured chemical is leaner in `L` -/
 def lleSwap (c : Cls α) (idx : List Nat) (top : Option Nat) (ml mL : Nat → α) : Bool :=
